@@ -100,6 +100,10 @@ def nb_call(rng):
     base = []
     for _ in range(rng.randint(1, 4)):
         n = rng.choice([0, 1, 2, 3, 5, 8, 12, 20, 30])
+        if rng.random() < 0.12:
+            # strings around and beyond machine-word sizes (64 / 128 characters): bit-parallel or
+            # banded distance implementations change behaviour there
+            n = rng.choice([63, 64, 65, 66, 100, 128, 129, 200])
         if rng.random() < 0.1:      # periodic strings: edits inside runs are ambiguous alignments
             unit = rng.choice([alpha[0], alpha[:2], alpha[:3]])
             base.append((unit * 30)[:rng.choice([16, 18, 24, 33])])
